@@ -64,8 +64,9 @@ func c14Owner(key []byte) int {
 }
 
 // c14.topo <R|B> <assign1> <assign2> <reads>   two masters (m0 owns slots 0-8191, m1 the rest) and three replicas; assign = which
-//	   master each replica follows, e.g. 001.  The real doSlotsRefresh is run on the first layout, then on the second;
-//	   then <reads> GETs of keys in m0's slots -> the classes of the nodes they went to: M (m0), R (a replica that follows m0 now), X (anything else), sorted
+//
+//	master each replica follows, e.g. 001.  The real doSlotsRefresh is run on the first layout, then on the second;
+//	then <reads> GETs of keys in m0's slots -> the classes of the nodes they went to: M (m0), R (a replica that follows m0 now), X (anything else), sorted
 func (c *c14) topo(f []string) string {
 	if len(f) != 4 || (f[0] != "R" && f[0] != "B") || len(f[1]) != 3 || len(f[2]) != 3 {
 		return "bad-op"
